@@ -1716,6 +1716,12 @@ def cl_next_step(r, sc, st, focus):
         t = timeout if timeout is not None else r.pick([20, 50, 50, 100, 1000])
         return f"{style}{h}.{rid}.{kind}.{unit}.{t}.{args}"
 
+    # `Channel::shutdown` is `send().await`: with a full queue the sender waits, and its command
+    # becomes visible to the task only after the task has yielded - an interleaving the model (which
+    # makes a waiting sender's entry visible at once) does not have; the steer keeps away from it, as
+    # it does for requests
+    shut = f"S{h}" if queue < sc.q else "A1"
+
     if not alive:
         sc.done = r.chance(1, 2)
         return submit(style=r.pick(["R", "C", "T"])) if live else "A5"
@@ -1741,7 +1747,7 @@ def cl_next_step(r, sc, st, focus):
         if k < 6:
             return f"A{r.pick([5, 10, 30, 40])}"
         if k < 7:
-            return r.pick([f"S{h}", f"H-{h}", "H+", "K", f"L{r.pick(ALL_LEVELS)}"])
+            return r.pick([shut, f"H-{h}", "H+", "K", f"L{r.pick(ALL_LEVELS)}"])
         return "A1"
     # in a session
     if st.get("enabled") == "0" and r.chance(1, 2):
@@ -1787,7 +1793,7 @@ def cl_next_step(r, sc, st, focus):
         if k < 20:
             return submit()
         if k < 21:
-            return r.pick([f"D{h}", f"S{h}", f"L{r.pick(ALL_LEVELS)}"])
+            return r.pick([f"D{h}", shut, f"L{r.pick(ALL_LEVELS)}"])
         if k < 22:
             return r.pick([f"H-{h}", "H+", "K"])
         return f"A{r.pick([1, 5, 10])}"
@@ -1806,7 +1812,7 @@ def cl_next_step(r, sc, st, focus):
     if k < 12:
         return r.pick(["Xe", "Xf"])
     if k < 13:
-        return r.pick([f"D{h}", f"S{h}", f"L{r.pick(ALL_LEVELS)}"])
+        return r.pick([f"D{h}", shut, f"L{r.pick(ALL_LEVELS)}"])
     if k < 14:
         return r.pick([f"H-{h}", "H+", "K"])
     return f"A{r.pick([1, 10, 60])}"
